@@ -22,7 +22,7 @@ RADII = [-2, 0, 1, 2, 5]      # a negative radius is an empty disc
 PMAX = 9
 # (scale, offset): parameter = (lattice + offset) * scale, all exactly representable
 FRAMES = [(1.0, 0.0), (0.5, 0.0), (0.25, 16.0), (8.0, -4.0), (1.0, 100.0), (2.0 ** -10, 0.0),
-          (1.0, -4.0), (3.0, 0.0), (2.0 ** -14, 0.0)]
+          (1.0, -4.0), (3.0, 0.0), (2.0 ** -14, 0.0), (2.0 ** -31, 0.0)]
 
 
 def lattice_regions():
@@ -117,7 +117,7 @@ def run(tier, seed):
     regs = lattice_regions()
     distinct = sorted(set((r[0],) + tuple(spec_region(r)[k] for k in "abcd") for r in regs))
     events_pt, events_cr = [], []
-    frames = FRAMES if tier == "thorough" else FRAMES[:6]
+    frames = FRAMES if tier == "thorough" else FRAMES[:6] + FRAMES[-1:]
     # containsPoint + corner orders: every region, every frame
     for reg in regs:
         if reg[0] == "rect" and not (reg[1] <= reg[3] and reg[2] <= reg[4]):
